@@ -147,7 +147,7 @@ class Case:
     """
 
     def __init__(self, cid, prop, config, declare, fn, claims, timeout=120, hooks=None, normals=None,
-                 noninterference=None, notes=None):
+                 noninterference=None, notes=None, adjusted=None):
         self.id, self.prop, self.config = cid, prop, config
         self.declare, self.fn, self.claims = declare, fn, claims
         self.timeout = timeout
@@ -155,6 +155,9 @@ class Case:
         self.normals = normals            # name of the input standing for jax.random.normal output
         self.noninterference = noninterference  # callable(I, O) -> list of (label, S element, allowed var prefixes)
         self.notes = notes or ""
+        # (finding id, claims_fn): the property re-stated modulo one specific known defect; if the
+        # plain VC is sat but this one is unsat the violation is exactly that finding
+        self.adjusted = adjusted
 
 
 def _flat(x):
@@ -210,7 +213,7 @@ def random_env(ctx, rng, lo=-1.5, hi=1.5):
 def run_case(case, seed=0, solver_timeout_ms=60000, cvc5=False, selfcheck_points=2):
     """returns a result dict (JSON-serialisable)"""
     import jax
-    from .interp import run_symbolic, is_sym, TraceRaised
+    from .interp import run_symbolic, is_sym, TraceRaised, ProducesNaN
     from .vc import VC
     from .spec import SymOps, FloatOps
 
@@ -259,6 +262,23 @@ def run_case(case, seed=0, solver_timeout_ms=60000, cvc5=False, selfcheck_points
         O, it, cj = run_symbolic(ctx, fn_pos, [I[n] for n in order], hooks=case.hooks, fresh_normals=fresh)
     except Unsupported as ex:
         res.update(status="inconclusive", detail=f"Unsupported: {ex}", t_sym=time.time() - t0)
+        return res
+    except ProducesNaN as pn:
+        # the real code produces NaN for every input of this configuration (e.g. out-of-bounds gather)
+        rng = random.Random(seed + 17)
+        best = None
+        for _ in range(2):
+            rep = _replay(case, I, random_env(ctx, rng))
+            best = rep
+            if rep.get("reproduced"):
+                break
+        res["t_sym"] = time.time() - t0
+        res["replay"] = best
+        if best.get("reproduced"):
+            res.update(status="violation", detail=f"real code yields a non-finite / wrong value ({pn}); replay: {best.get('worst_label')} lhs={best.get('lhs')} rhs={best.get('rhs')}",
+                       violated=[f"nan:{best.get('worst_label')}"])
+        else:
+            res.update(status="inconclusive", detail=f"interpreter saw {pn} but the float64 run is finite and agrees")
         return res
     except TraceRaised as tr:
         # the real code raised while being traced with inputs the property says are accepted
@@ -456,6 +476,24 @@ def run_case(case, seed=0, solver_timeout_ms=60000, cvc5=False, selfcheck_points
             if rep.get("reproduced"):
                 break
     res["replay"] = best
+    if best and best.get("reproduced") and case.adjusted is not None:
+        fid, cfn = case.adjusted
+        try:
+            vca = VC(ctx)
+            vca.bounds = dict(b.bounds)
+            for label, lhs, rhs in cfn(I, O, ops):
+                L, Rr = _flat(lhs), _flat(rhs)
+                if len(Rr) == 1 and len(L) > 1:
+                    Rr = Rr * len(L)
+                for k, (x, y) in enumerate(zip(L, Rr)):
+                    vca.equal(f"{label}#{k}", x, y)
+            ra, dta, _ = VC.z3_check(vca.smt_text(), solver_timeout_ms)
+            res["t_solver"] += dta
+            res["adjusted_vc"] = {"finding": fid, "result": ra, "obligations": len(vca.obl)}
+            if ra == "unsat":
+                res["known_adjusted"] = fid
+        except Exception as ex:
+            res["adjusted_vc"] = {"finding": fid, "result": "error: " + repr(ex)[:200]}
     if best and best.get("reproduced"):
         res["status"] = "violation"
         res["detail"] = f"z3 sat; replay on real float64 code: {best['worst_label']} lhs={best['lhs']:.12g} rhs={best['rhs']:.12g}"
